@@ -1053,17 +1053,30 @@ func c20PathRef(r *core.Report) {
 						var exprs []ast.Expr
 						exprs = append(exprs, a.Expr)
 						exprs = append(exprs, ff.Roots(a.Expr, false).Exprs...)
+						prefixTest, ctxDependent := false, false
 						for _, e := range exprs {
 							ast.Inspect(e, func(m ast.Node) bool {
 								if c, ok := m.(*ast.CallExpr); ok && len(c.Args) == 2 {
 									if f := core.CalleeOf(info, c); f != nil && f.Name() == "HasPrefix" {
 										if sv, isStr := core.ConstStr(info, c.Args[1]); isStr && sv == "#/paths/" && !a.Pos {
-											good = true
+											prefixTest = true
+										}
+									}
+								}
+								if id, ok := m.(*ast.Ident); ok {
+									if o, isVar := info.ObjectOf(id).(*types.Var); isVar && isParamOf(fd, info, o) {
+										if b, isB := o.Type().Underlying().(*types.Basic); isB && b.Kind() == types.Bool {
+											ctxDependent = true
 										}
 									}
 								}
 								return true
 							})
+						}
+						// the exemption holds wherever the walk is: a path item cycle inside an external
+						// document is as impossible to inline as one of the root document
+						if prefixTest && !ctxDependent {
+							good = true
 						}
 					}
 					r.Check(good, key, p.Pos(as.Pos()), "not reached for a reference into the document's own paths", core.FuncName(fd)+" clears the reference of a path item whatever it refers to: for a path item that is reached again through a callback of its own operations (a cycle that loading and validating accept) the copy of the target's operations stays and json.Marshal / yaml.Marshal of the document never returns")
